@@ -1018,7 +1018,7 @@ class LaunchRun(object):
         old_find = controller.find_tor_binary
         had_open = 'open' in tcp.__dict__
         old_open = tcp.__dict__.get('open')
-        old_os = tcp.os
+        old_os = getattr(tcp, 'os', os)
         try:
             tempfile.tempdir = self.root
             controller.find_tor_binary = lambda *a, **kw: '/sim/tor'
